@@ -28,11 +28,10 @@ pub proof fn lemma_column_char(cp: CharPartition, j: int)
     }
 }
 
-pub proof fn lemma_abs_aut_ok(a: Automaton, t: CompactTable, cp: CharPartition)
-    requires dfa_wf(a), table_of(t, a, cp), a.states@.len() < u32::MAX - 1,
-    ensures aut_ok(abs_aut(a, t)),
+pub proof fn lemma_abs_aut_ok(aa: MzAut, a: Automaton, t: CompactTable, cp: CharPartition)
+    requires dfa_wf(a), table_of(t, a, cp), a.states@.len() < u32::MAX - 1, abs_agrees(aa, a, t), 1 <= a.states@.len(),
+    ensures aut_ok(aa),
 {
-    let aa = abs_aut(a, t);
     assert forall|x: u32, j: u32| x < aa.n && j < aa.m implies #[trigger] (aa.d)(x, j) < aa.n by {
         lemma_column_char(cp, j as int);
         let c = col_char(cp, j as int);
@@ -42,12 +41,11 @@ pub proof fn lemma_abs_aut_ok(a: Automaton, t: CompactTable, cp: CharPartition)
 }
 
 // a congruence of the abstract automaton is a congruence of the real one
-pub proof fn lemma_real_cong(a: Automaton, t: CompactTable, cp: CharPartition, p: Partition)
-    requires dfa_wf(a), table_of(t, a, cp), a.states@.len() < u32::MAX - 1,
-        refines_fin(abs_aut(a, t), p), congruence(abs_aut(a, t), p), p.base.size == a.states@.len(),
+pub proof fn lemma_real_cong(aa: MzAut, a: Automaton, t: CompactTable, cp: CharPartition, p: Partition)
+    requires dfa_wf(a), table_of(t, a, cp), a.states@.len() < u32::MAX - 1, abs_agrees(aa, a, t),
+        refines_fin(aa, p), congruence(aa, p), p.base.size == a.states@.len(),
     ensures real_cong(a, p),
 {
-    let aa = abs_aut(a, t);
     assert forall|x: u32, y: u32| x < a.states@.len() && y < a.states@.len() && #[trigger] same_blk(p, x, y) implies a.states@[x as int].is_final == a.states@[y as int].is_final by {
         assert((aa.fin)(x) == (aa.fin)(y));
     }
@@ -83,25 +81,25 @@ pub proof fn lemma_cong_run(a: Automaton, p: Partition, x: u32, y: u32, w: Seq<u
 }
 
 // equivalent states of the real automaton are equivalent in the abstract one
-pub proof fn lemma_equiv_abs(a: Automaton, t: CompactTable, cp: CharPartition, x: u32, y: u32)
-    requires dfa_wf(a), table_of(t, a, cp), a.states@.len() < u32::MAX - 1, x < a.states@.len(), y < a.states@.len(), st_equiv(a, x as int, y as int),
-    ensures nerode(abs_aut(a, t), x, y),
+pub proof fn lemma_equiv_abs(aa: MzAut, a: Automaton, t: CompactTable, cp: CharPartition, x: u32, y: u32)
+    requires dfa_wf(a), table_of(t, a, cp), a.states@.len() < u32::MAX - 1, abs_agrees(aa, a, t), x < a.states@.len(), y < a.states@.len(), st_equiv(a, x as int, y as int),
+    ensures nerode(aa, x, y),
 {
-    let aa = abs_aut(a, t);
     assert forall|w: Seq<u32>| mz_word(aa, w) implies #[trigger] mz_acc(aa, x, w) == mz_acc(aa, y, w) by {
-        lemma_abs_same_word(a, t, cp, x, y, w);
+        lemma_abs_same_word(aa, a, t, cp, x, y, w);
     }
 }
 
 // the same real word serves for both states (columns were turned into characters independently of the state)
-pub proof fn lemma_abs_same_word(a: Automaton, t: CompactTable, cp: CharPartition, x: u32, y: u32, w: Seq<u32>)
-    requires dfa_wf(a), table_of(t, a, cp), a.states@.len() < u32::MAX - 1, x < a.states@.len(), y < a.states@.len(), st_equiv(a, x as int, y as int), mz_word(abs_aut(a, t), w),
-    ensures mz_acc(abs_aut(a, t), x, w) == mz_acc(abs_aut(a, t), y, w),
+pub proof fn lemma_abs_same_word(aa: MzAut, a: Automaton, t: CompactTable, cp: CharPartition, x: u32, y: u32, w: Seq<u32>)
+    requires dfa_wf(a), table_of(t, a, cp), a.states@.len() < u32::MAX - 1, abs_agrees(aa, a, t), x < a.states@.len(), y < a.states@.len(), st_equiv(a, x as int, y as int), mz_word(aa, w),
+    ensures mz_acc(aa, x, w) == mz_acc(aa, y, w),
 {
-    let aa = abs_aut(a, t);
     let rw = real_word(cp, w);
-    lemma_real_word(a, t, cp, x, w);
-    lemma_real_word(a, t, cp, y, w);
+    lemma_real_word(aa, a, t, cp, x, w);
+    lemma_real_word(aa, a, t, cp, y, w);
+    assert((aa.fin)(mz_run(aa, x, w)) == a.states@[mz_run(aa, x, w) as int].is_final);
+    assert((aa.fin)(mz_run(aa, y, w)) == a.states@[mz_run(aa, y, w) as int].is_final);
     assert(accepts_from(a, x as int, rw) == accepts_from(a, y as int, rw));
 }
 
@@ -112,12 +110,11 @@ pub open spec fn real_word(cp: CharPartition, w: Seq<u32>) -> Seq<u32>
     if w.len() == 0 { Seq::<u32>::empty() } else { seq![col_char(cp, w[0] as int) as u32] + real_word(cp, w.drop_first()) }
 }
 
-pub proof fn lemma_real_word(a: Automaton, t: CompactTable, cp: CharPartition, x: u32, w: Seq<u32>)
-    requires dfa_wf(a), table_of(t, a, cp), a.states@.len() < u32::MAX - 1, x < a.states@.len(), mz_word(abs_aut(a, t), w),
-    ensures ss_good(real_word(cp, w)), run(a, x as int, real_word(cp, w)) == mz_run(abs_aut(a, t), x, w) as int, 0 <= run(a, x as int, real_word(cp, w)) < a.states@.len(),
+pub proof fn lemma_real_word(aa: MzAut, a: Automaton, t: CompactTable, cp: CharPartition, x: u32, w: Seq<u32>)
+    requires dfa_wf(a), table_of(t, a, cp), a.states@.len() < u32::MAX - 1, abs_agrees(aa, a, t), x < a.states@.len(), mz_word(aa, w),
+    ensures ss_good(real_word(cp, w)), run(a, x as int, real_word(cp, w)) == mz_run(aa, x, w) as int, 0 <= run(a, x as int, real_word(cp, w)) < a.states@.len(),
     decreases w.len(),
 {
-    let aa = abs_aut(a, t);
     if w.len() > 0 {
         let j = w[0];
         let c = col_char(cp, j as int);
@@ -126,7 +123,7 @@ pub proof fn lemma_real_word(a: Automaton, t: CompactTable, cp: CharPartition, x
         lemma_delta_total(a.states@[x as int], a.states@.len() as int, c);
         let x1 = (aa.d)(x, j);
         assert(mz_word(aa, w.drop_first())) by { assert forall|i: int| 0 <= i < w.drop_first().len() implies #[trigger] w.drop_first()[i] < aa.m by { assert(w.drop_first()[i] == w[i + 1]); } }
-        lemma_real_word(a, t, cp, x1, w.drop_first());
+        lemma_real_word(aa, a, t, cp, x1, w.drop_first());
         let r1 = real_word(cp, w.drop_first());
         lemma_run_cons(a, x as int, c as u32, r1);
         lemma_good_cons(c as u32, r1);
@@ -134,19 +131,18 @@ pub proof fn lemma_real_word(a: Automaton, t: CompactTable, cp: CharPartition, x
 }
 
 // the blocks of the partition refine() returns are exactly the equivalence classes of the real automaton
-pub proof fn lemma_blocks_are_classes(a: Automaton, t: CompactTable, cp: CharPartition, p: Partition)
-    requires dfa_wf(a), table_of(t, a, cp), a.states@.len() < u32::MAX - 1, is_nerode_partition(abs_aut(a, t), p),
+pub proof fn lemma_blocks_are_classes(aa: MzAut, a: Automaton, t: CompactTable, cp: CharPartition, p: Partition)
+    requires dfa_wf(a), table_of(t, a, cp), a.states@.len() < u32::MAX - 1, abs_agrees(aa, a, t), is_nerode_partition(aa, p),
     ensures real_cong(a, p),
         forall|x: u32, y: u32| x < a.states@.len() && y < a.states@.len() ==> #[trigger] same_blk(p, x, y) == st_equiv(a, x as int, y as int),
 {
-    let aa = abs_aut(a, t);
-    lemma_real_cong(a, t, cp, p);
+    lemma_real_cong(aa, a, t, cp, p);
     assert forall|x: u32, y: u32| x < a.states@.len() && y < a.states@.len() implies #[trigger] same_blk(p, x, y) == st_equiv(a, x as int, y as int) by {
         if same_blk(p, x, y) {
             assert forall|w: Seq<u32>| ss_good(w) implies #[trigger] accepts_from(a, x as int, w) == accepts_from(a, y as int, w) by { lemma_cong_run(a, p, x, y, w); }
         }
         if st_equiv(a, x as int, y as int) {
-            lemma_equiv_abs(a, t, cp, x, y);
+            lemma_equiv_abs(aa, a, t, cp, x, y);
             assert(nerode(aa, x, y));
         }
     }
